@@ -45,7 +45,7 @@ Proof. vm_compute. reflexivity. Qed.
 (* ROI on axes 0 and 2 of a 2 x 3 x 4 cube: slab-and-broadcast under the view [:, 1:, ::2] *)
 Definition ex_P (c : list Z) : bool := match c with [a; b] => (a =? 1) && (1 <=? b) | _ => false end.
 Example ex_roi :
-  let '(sh, m) := roi_pixel_mask ex_P [2; 3; 4] [0; 2] [VSlice full_slice; VSlice (Slice (Some 1) None None); VSlice (Slice None None (Some 2))] in
+  let '(sh, m) := roi_pixel_mask true ex_P [2; 3; 4] [0; 2] [VSlice full_slice; VSlice (Slice (Some 1) None None); VSlice (Slice None None (Some 2))] in
   (sh, map m (box sh)) = ([2; 2; 2], [false; false; false; false; false; true; false; true]).
 Proof. vm_compute. reflexivity. Qed.
 Example ex_roi_hyp : Forall (fun a => 0 <= a) [0; 2]. Proof. repeat constructor; lia. Qed.
